@@ -17,12 +17,7 @@ PRE = ('From Coq Require Import ZArith QArith List.\nRequire Import WV.model.C12
 PRIMES = [13, 17, 19, 23, 29, 31, 37]
 FLOWS = ['row', 'column', 'row dense', 'column dense']
 
-# F68-F72 (negative lines, negative indexing, stale first_i hang / UnboundLocalError, IndexError) are fixed in /repo:
-# such outcomes are judged normally (no signature).  Open: F73, F74, F75.
-SIG_NEG_EMPTY = 'grid:negative-line-no-explicit-track'
-SIG_MISSING_TRACK = 'grid:implicit-track-missing-for-span'
-SIG_FR_STRETCH = 'grid:fr-sum-below-one-stretched'
-SIG_FR_FREEZE = 'grid:fr-freeze-no-restart'
+# F68-F75 and F196 are fixed in /repo: every crash, hang or specification failure is reported without signature.
 
 
 # ------------------------------------------------------------------------------------------ Coq printers
@@ -259,68 +254,13 @@ def has_negative(c):
 
 
 def place_signature(c, st, o, mask):
-    """mechanism signature of a specification failure on the unchanged implementation (None = not a known one)."""
-    if st != 'ok':
-        return None                                   # a crash or a hang is never an accepted outcome
-    areas = [p for p in o['placement'] if p is not None]
-    if mask & 8:
-        return None                                   # overlap: never accepted
-    if mask & 4:
-        # reported: with `grid-template-columns/rows: none` the code counts negative integers from the end of an
-        # explicit grid of ONE track (grid_areas = [[None]]), css-grid 7.1/8.3: no explicit track, line -1 = line 1
-        def neg(g):
-            return g != 'auto' and g[0] == 'L' and g[1] < 0
-        if ((len(c['cols']) == 0 and any(neg(it['cs']) or neg(it['ce']) for it in c['items'])) or
-                (len(c['rows']) == 0 and any(neg(it['rs']) or neg(it['re']) for it in c['items']))):
-            return SIG_NEG_EMPTY
-        return None
-    if mask & 16 and len(areas) == len(c['items']):
-        # F73: the area of an auto-placed item reaches beyond the last track of the flow axis (areas are counted
-        # from the first implicit track)
-        if (any(p[0] + p[2] > len(o['cols']) for p in areas) or any(p[1] + p[3] > len(o['rows']) for p in areas)):
-            return SIG_MISSING_TRACK
+    """F68-F73 and F196 are fixed in /repo: no outcome of the placement stream is an accepted deviation any more."""
     return None
 
 
 def tracks_signature(c, mask):
-    """mechanism of a track-size specification failure on the pinned tree: (a) step 1.5 stretches fr tracks whose factors
-    sum to less than 1 (needs such tracks, free space, content distribution normal/stretch); (b) an fr track with
-    content is frozen by the 1.4 loop, which then stops instead of restarting (needs a frozen track)."""
-    def axis(horizontal, tracks, box, gap, just):
-        bases = []
-        for k, t in enumerate(tracks):
-            if t[0] == 'px':
-                bases.append(Fraction(t[1]))
-            elif t[0] == 'pct':
-                bases.append(Fraction(box) * t[1] / 100)
-            else:
-                b = 0
-                for it in c['items']:
-                    if horizontal and it['w'] == 1 and it['x'] == k:
-                        b = max(b, it['cw'])
-                    if not horizontal and it['h'] == 1 and it['y'] == k:
-                        b = max(b, it['chh'])
-                bases.append(Fraction(b))
-        fr = [(Fraction(t[1]), bases[k]) for k, t in enumerate(tracks) if t[0] == 'fr']
-        free = box - sum(bases) - (len(tracks) - 1) * gap
-        if not fr or free <= 0:
-            return None
-        hyp = (free + sum(b for _, b in fr)) / max(1, sum(f for f, _ in fr))
-        if any(hyp * f < b for f, b in fr):
-            return SIG_FR_FREEZE
-        if just != 'start' and sum(f for f, _ in fr) < 1:
-            return SIG_FR_STRETCH
-        if just != 'start' and any(b > 0 for _, b in fr):
-            return SIG_FR_STRETCH       # free_space bookkeeping of the final expansion leaves a remainder: 1.5 hands it out
-        return None
-    sigs = set()
-    if mask & 4:
-        sigs.add(axis(True, c['cols'], c['width'], c['gap_c'], c['jc']))
-    if mask & 8:
-        sigs.add(axis(False, c['rows'], c['height'], c['gap_r'], c['ac']))
-    if mask & 16 or None in sigs or not sigs:
-        return None
-    return SIG_FR_FREEZE if SIG_FR_FREEZE in sigs else SIG_FR_STRETCH
+    """F74 and F75 are fixed in /repo: no outcome of the track stream is an accepted deviation any more."""
+    return None
 
 
 # ---------------------------------------------------------------------------------------------- streams
